@@ -11,7 +11,7 @@ import ast
 
 from ..astutil import (Aff, NotAffine, affine, bind_args, call_tail, calls_in, dotted, enumerate_paths, local_defs, src,
                        strand_of_test, try_affine)
-from ..interp import Raised, Uninterpretable, Obj
+from ..interp import ClassTok, Raised, Uninterpretable, Obj
 from ..lockernel import (blocks_of, is_empty_obj, loc_interp, mk_compound, mk_single, orderings, run, strand_of, strands)
 from ..model import AnalysisError
 from ..par import pmap
@@ -173,18 +173,28 @@ def _rel_compose(a, b):
     return inv[sign[a] * sign[b]]
 
 
-def _maps_on_layout(repo, it, S, layout, strand_name):
-    """all map questions on one layout; returns (n, [(key, message, qual)])"""
+PRE_GENOME = "ACGTTGCAAGGCTTACCGATAGGCATCGTTAAGCCGTAACGTTGCAAGG"
+
+
+def _maps_on_layout(repo, it, S, layout, strand_name, pre=False):
+    """all map questions on one layout; returns (n, [(key, message, qual)]).  With pre=True the location sits on a
+    sequence-carrying parent and its sequence is extracted first (the maps must not depend on that history)."""
     out = []
     n = 0
     strand = S[strand_name]
+    kw = {}
     try:
+        if pre:
+            from ..genekernel import chrom_parent
+            kw = {"parent": chrom_parent(it, PRE_GENOME, alphabet="NT_STRICT")}
         if len(layout) == 1:
-            loc = mk_single(it, layout[0][0], layout[0][1], strand)
+            loc = it.apply(ClassTok("SingleInterval"), [layout[0][0], layout[0][1], strand], kw, None, 0)
             cls = "SingleInterval"
         else:
-            loc = mk_compound(it, [b[0] for b in layout], [b[1] for b in layout], strand)
+            loc = it.apply(ClassTok("CompoundInterval"), [[b[0] for b in layout], [b[1] for b in layout], strand], kw, None, 0)
             cls = "CompoundInterval"
+        if pre:
+            run(it, repo.fn(f"{LOC}:{cls}.extract_sequence"), [], {}, loc)
     except Raised as ex:
         return 1, [("construct", f"constructing {layout} raises {ex.exc_name}", f"{LOC}:CompoundInterval.__init__")]
     stored = blocks_of(loc)
@@ -194,7 +204,7 @@ def _maps_on_layout(repo, it, S, layout, strand_name):
     f_r2p = repo.fn(f"{LOC}:{cls}.relative_to_parent_pos")
     f_riv = repo.fn(f"{LOC}:{cls}.relative_interval_to_parent_location")
     f_p2rl = repo.fn("location.location:Location.parent_to_relative_location")
-    desc = f"{cls}{stored}:{strand_name}"
+    desc = f"{cls}{stored}:{strand_name}" + (" (after extract_sequence())" if pre else "")
     overlapping = len(set(seq)) != len(seq)
     # relative -> parent
     for rpos in range(-1, L + 2):
@@ -266,7 +276,7 @@ def _maps_on_layout(repo, it, S, layout, strand_name):
                     if not inter:
                         continue
                     n += 1
-                    q = mk_single(it, qs, qe, S[qstr])
+                    q = it.apply(ClassTok("SingleInterval"), [qs, qe, S[qstr]], dict(kw), None, 0)
                     k, v = run(it, f_p2rl, [q], {}, loc)
                     want = sorted(seq.index(p) for p in inter)
                     if k != "ok":
@@ -305,16 +315,19 @@ def r3_maps(ctx):
         for mode in (("tri", "uniform") if ctx.thorough and nb < 3 else ("tri",)):
             for layout in _layouts(nb, mode):
                 for sn in ("PLUS", "MINUS"):
-                    specs.append((layout, sn))
+                    specs.append((layout, sn, False))
+                    if nb == 2 and mode == "tri" and max(e for _, e in layout) <= len(PRE_GENOME):
+                        specs.append((layout, sn, True))
     r.floor("C01.R3", "block layouts x strands", len(specs), 24)
 
     def work(spec):
         if _W.get("repo") is not repo:
-            _W["it"] = loc_interp(repo, max_steps=10 ** 12)
+            from ..genekernel import gene_interp
+            _W["it"] = gene_interp(repo, max_steps=10 ** 12)
             _W["repo"] = repo
         it = _W["it"]
         try:
-            return _maps_on_layout(repo, it, strands(it), list(spec[0]), spec[1])
+            return _maps_on_layout(repo, it, strands(it), list(spec[0]), spec[1], spec[2])
         except Uninterpretable as ex:
             return 0, [("uninterpretable", str(ex), f"{LOC}:CompoundInterval.relative_to_parent_pos")]
 
